@@ -78,6 +78,26 @@ CLAIMED.update({
             "DESIGN.md section 4, C13"),
 })
 
+CLAIMED.update({
+    "C10": ("bounded symbolic execution with the memory limit as a symbolic integer (symx proxies + z3) of the real "
+            "spill code, differential against the unlimited run, real file I/O",
+            "For each buffering slot kind (Output, NextTime, PreviousTime, LinearTime, StepTime, StackTime, AvgOverTime "
+            "linear/step, SumOverTime absolute/per-time), plain and masked payloads, the limit set per slot or "
+            "composition-wide: z3 enumerates every limit interval that changes a spill decision of the real _pack "
+            "comparison (off, 0, each prefix of publications in RAM, everything in RAM); on each the consumer receives "
+            "exactly what the unlimited run delivers, all files are created directly under the configured location and "
+            "none remains after run(). Schedules and payloads are concrete (4-6 daily publications).",
+            "DESIGN.md section 4, C10"),
+    "C12": (LINK,
+            "For AvgOverTime, SumOverTime(per_time) and SumOverTime(absolute), linear and step interpolation with a "
+            "symbolic step position, publish/pull patterns with up to 5 publications and 3 pulls, symbolic real values "
+            "and symbolic strictly increasing pull times over concrete irregular gaps: z3 (nonlinear real arithmetic) "
+            "refutes 'delivered != exact integral of the interpolant' on every path, the partition independence against "
+            "a twin adapter, and 'average outside the range of contributing values'; fully symbolic gaps only in the "
+            "thorough tier, where 'unknown' answers are counted and excluded.",
+            "DESIGN.md section 4, C12"),
+})
+
 PENDING = {}
 
 NOT_APPLICABLE = {
